@@ -46,6 +46,8 @@ pub struct Heap {
     heap_map: gc::Map,
     symbol_table: HashMap<String, usize>,
     payload: usize,
+    /// The global environment slots that the code marked so far refers to.
+    global_refs: HashSet<usize>,
 }
 
 impl Heap {
@@ -61,6 +63,7 @@ impl Heap {
             heap_map: gc::Map::new(chunk_size),
             symbol_table: HashMap::new(),
             payload: 0,
+            global_refs: HashSet::new(),
         }
     }
 
@@ -499,13 +502,16 @@ impl Heap {
                 }
             }
             VCell::EnvironmentPointer(ep) => self.mark(*ep),
+            // not a heap reference, but what keeps a global binding: see global_refs()
+            VCell::GlobalEnvSlot(slot) => {
+                self.global_refs.insert(*slot);
+            }
             VCell::Acc
             | VCell::ArgumentCount(_)
             | VCell::BasePointer(_)
             | VCell::BasePointerOffset(_)
             | VCell::Bool(_)
             | VCell::Char(_)
-            | VCell::GlobalEnvSlot(_)
             | VCell::LexicalEnv(_)
             | VCell::LexicalEnvSlot(_)
             | VCell::Nil
@@ -518,6 +524,15 @@ impl Heap {
             | VCell::Undefined
             | VCell::Void => {}
         }
+    }
+
+    /// Global Refs
+    ///
+    /// The global environment slots referred to by the bytecode marked since the
+    /// last sweep. A binding for a name that is not defined and that no live code
+    /// refers to can be released.
+    pub fn global_refs(&self) -> &HashSet<usize> {
+        &self.global_refs
     }
 
     /// Mark Continuation
@@ -573,6 +588,7 @@ impl Heap {
             }
         }
         self.payload = 0;
+        self.global_refs.clear();
         trace!("freed {} vcell(s)", self.free_list.len() - before);
     }
 
